@@ -6,6 +6,8 @@ import (
 	"go/token"
 	"go/types"
 	"strings"
+
+	"golang.org/x/tools/go/packages"
 )
 
 // Structural (engine-decided) checks: goroutine ledger etc. Filled in later.
@@ -120,8 +122,17 @@ func (e *Engine) checkCallers(u *Unit) {
 			continue
 		}
 		for _, d := range dirs {
+			external := false
 			rest, ok := strings.CutPrefix(d, "callers ")
 			if !ok {
+				// extcallers: the callee is a method of a dependency, matched by name
+				rest, ok = strings.CutPrefix(d, "extcallers ")
+				external = ok
+			}
+			if !ok {
+				if r2, ok2 := strings.CutPrefix(d, "senders "); ok2 {
+					e.checkSenders(u, p, pkgPath, r2)
+				}
 				continue
 			}
 			target, list, ok := strings.Cut(rest, ":")
@@ -157,7 +168,7 @@ func (e *Engine) checkCallers(u *Unit) {
 								obj = p.TypesInfo.Uses[fx.Sel]
 							}
 						}
-						if fn, ok := obj.(*types.Func); !ok || fn.Pkg() == nil || fn.Pkg().Path() != pkgPath {
+						if fn, ok := obj.(*types.Func); !ok || fn.Pkg() == nil || (fn.Pkg().Path() != pkgPath && !external) {
 							return true
 						}
 						found++
@@ -179,5 +190,54 @@ func (e *Engine) checkCallers(u *Unit) {
 				u.stale = append(u.stale, "callers directive: no call of "+target+" found in "+pkgPath)
 			}
 		}
+	}
+}
+
+
+// checkSenders: `directive senders <field> : A, B`: sends on a channel held in
+// a struct field named <field> occur only in the functions A, B.
+func (e *Engine) checkSenders(u *Unit, p *packages.Package, pkgPath, rest string) {
+	field, list, ok := strings.Cut(rest, ":")
+	if !ok {
+		return
+	}
+	field = strings.TrimSpace(field)
+	allowed := map[string]bool{}
+	for _, a := range strings.Split(list, ",") {
+		allowed[strings.TrimSpace(a)] = true
+	}
+	found := 0
+	for _, f := range p.Syntax {
+		for _, decl := range f.Decls {
+			fd, ok := decl.(*ast.FuncDecl)
+			if !ok || fd.Body == nil {
+				continue
+			}
+			ast.Inspect(fd.Body, func(x ast.Node) bool {
+				ss, ok := x.(*ast.SendStmt)
+				if !ok {
+					return true
+				}
+				se, ok := ast.Unparen(ss.Chan).(*ast.SelectorExpr)
+				if !ok || se.Sel.Name != field {
+					return true
+				}
+				found++
+				u.kindN["senders"]++
+				okc := allowed[fd.Name.Name]
+				ob := &Obligation{Name: fmt.Sprintf("structural#senders.%s.%d", field, u.kindN["senders"]), Unit: u.name, Kind: "senders", Pos: u.pos(ss.Pos()),
+					Desc: fmt.Sprintf("sends on %s only in {%s} (here: %s)", field, strings.TrimSpace(list), fd.Name.Name), Static: true, StaticOK: okc}
+				if okc {
+					ob.Status = "static"
+				} else {
+					ob.Status = "failed-static"
+				}
+				u.obls = append(u.obls, ob)
+				return true
+			})
+		}
+	}
+	if found == 0 {
+		u.stale = append(u.stale, "senders directive: no send on "+field+" found in "+pkgPath)
 	}
 }
